@@ -11,8 +11,11 @@ import (
 const ErrState = State(-1)
 
 var (
-	EqState   = generic.NewEqualFunc[State]()
-	HashState = hash.HashFuncForInt[State](nil)
+	EqState = generic.NewEqualFunc[State]()
+
+	// A HashFunc created by the hash package keeps a hasher and a buffer and is not safe for concurrent use.
+	// HashState creates one for every call, so that it can be used from different goroutines.
+	HashState = func(s State) uint64 { return hash.HashFuncForInt[State](nil)(s) }
 
 	CmpState = func(lhs, rhs State) int {
 		return int(lhs) - int(rhs)
